@@ -4140,8 +4140,9 @@ func init() {
 
 func ruleJ6(c *Ctx) {
 	n := 0
+	reach := pkgReach(c.P, "lib/json", "decode")
 	for _, fn := range c.P.Funcs {
-		if relPkg(fnPkgPath(fn)) != "lib/json" || outermost(fn).Name() != "decode" {
+		if relPkg(fnPkgPath(fn)) != "lib/json" || !reach[fn] {
 			continue
 		}
 		// the fallback: encoding/json.Unmarshal, reached on the false edge of the flag
